@@ -102,7 +102,7 @@ func (w *World) Adversarial() *Tok {
 			d := *t.jwt
 			d.sigOK = false
 			b := []byte(t.S)
-			i := len(b) - 1 - w.R.IntN(20)
+			i := len(b) - 2 - w.R.IntN(20) // not the last character: its low bits are padding
 			if b[i] == 'A' {
 				b[i] = 'B'
 			} else {
@@ -190,7 +190,7 @@ func (w *World) UseEverywhere(fixed opfix.Router, mixed bool, t *Tok) {
 				w.UserInfo(r, t)
 				continue
 			}
-			w.Exchange(r, Exch{Cred: BasicCred(w.ownerOf(t)), Subj: t, SubjType: typ, Requested: "TAccess",
+			w.Exchange(r, Exch{Cred: ExchangeCred(r, BasicCred(w.ownerOf(t))), Subj: t, SubjType: typ, Requested: "TAccess",
 				Scopes: []string{"openid"}, Audience: []string{w.ownerOf(t)}})
 		}
 	}
@@ -243,6 +243,7 @@ func (w *World) RandomExchange(r opfix.Router) {
 		}
 		x.Actor, x.ActorType = a, at
 	}
+	x.Cred = ExchangeCred(r, x.Cred)
 	x.Requested = drv.Pick(w.R, []string{"TAbsent", "TAccess", "TAccess", "TRefresh", "TId", "TJwt", "TUnknown"})
 	x.Scopes = drv.Pick(w.R, exchScopes)
 	x.Audience = drv.Pick(w.R, [][]string{nil, {x.Cred.ID}, {x.Cred.ID}, {"web", "web2"}})
@@ -273,4 +274,18 @@ func (w *World) ConfusedExchange(r opfix.Router) bool {
 	}
 	w.Exchange(r, x)
 	return true
+}
+
+// ExchangeCred keeps token-exchange requests of public clients (auth method none) out of the
+// generated inputs where their treatment is C05's subject (and changed by C05's fix patches):
+// none on the Legacy router, client_id only (always invalid_client) on the Provider router.
+func ExchangeCred(r opfix.Router, c Cred) Cred {
+	k := ClientByID(c.ID)
+	if k == nil || k.Auth != "AMNone" {
+		return c
+	}
+	if r == opfix.Legacy {
+		return BasicCred("web")
+	}
+	return Cred{"post", c.ID, ""}
 }
